@@ -520,6 +520,8 @@ func runC16(r *Run) {
 	checkIndexMaps(r, m)
 	checkAdapterSpecifics(r)
 	checkSuicideZeroes(r, "C16.suicide")
+	checkRemoveAccount(r, "C16.suicide")
+	checkIntrinsicGas(r, "C16.gas")
 	checkDirtyCount(r, "C16.dirtycount")
 	checkAccessListFlags(r)
 }
